@@ -212,7 +212,7 @@ def explicit_cases(draw, tier="quick"):
     d = draw(st.sampled_from([2, 2, 3, 3, 4]))
     max_bins = 6 if d < 4 else 4
     axes = [draw(axis(max_bins)) for _ in range(d)]
-    n = draw(st.integers(0, 40 if tier == "thorough" else 25))
+    n = draw(st.one_of(st.integers(0, 40 if tier == "thorough" else 25), st.just(d), st.just(d)))  # n == d: a square data block
     allow_nan = draw(st.sampled_from([False, False, True]))
     cols = [draw(gen.values_for(ax["pairs"], n, n, allow_nan=allow_nan)) for ax in axes]
     rows = [[cols[j][i] for j in range(d)] for i in range(n)]
